@@ -95,7 +95,7 @@ func far(k int) int  { return 5_000_000 + k*slotUs }
 func (g *gen) directed(i int) {
 	r := g.r
 	j := func(lo, hi int) int { return r.Range(lo, hi) }
-	switch i % 12 {
+	switch i % nDirected {
 	case 0: // consumer parked on a far element; a sooner one arrives — it must be woken by the enqueue
 		a, b := g.id(), g.id()
 		g.emit("new cap=0",
@@ -174,8 +174,64 @@ func (g *gen) directed(i int) {
 		}
 		g.emit(append(ls, "end")...)
 	case 9, 10, 11:
-		g.cancelRace(i % 12)
+		g.cancelRace(i % nDirected)
+	case 12:
+		// Several consumers parked on the timer of a far element; a sooner element x arrives; the consumers with
+		// a short context give up before x expires: the remaining one must have been woken by that Enqueue too
+		// (re-armed for x), although it was not the one that "got" the wake-up.  A cond that wakes ONE waiter
+		// where the code broadcasts leaves it asleep on the far timer.
+		a, x := g.id(), g.id()
+		ls := []string{"new cap=0", fmt.Sprintf("t1 0 enq %d %d 100000", a, far(0))}
+		n := r.Range(2, 3)
+		long := r.Range(0, n)
+		for k := 0; k <= n; k++ {
+			c := j(12000, 16000) // ends after x arrived (<= 7 ms) and before x expires (>= 40 ms)
+			if k == long {
+				c = longCtx
+			}
+			ls = append(ls, fmt.Sprintf("t%d %d deq %d", 2+k, j(0, 2000), c))
+		}
+		ls = append(ls, fmt.Sprintf("t9 %d enq %d %d 100000", j(4500, 7000), x, slot(j(4, 5))))
+		g.emit(append(ls, "end")...)
+	case 13, 14, 15:
+		g.simultaneous(i % nDirected)
 	}
+}
+
+const nDirected = 16
+
+// simultaneous: the waiter (long context) and the operation that enables it start at about the SAME instant, so
+// that the enabling broadcast can fall anywhere inside the waiter's call — between its peek and the fetch of the
+// signal channel, between the fetch and the select, after the timer was armed.  On a healthy tree the waiter
+// returns at once or is woken; a wake-up lost in one of these windows leaves it parked for its 3 s context.
+//
+//	13: consumer on an empty queue  vs  Enqueue of an expired element
+//	14: consumer on a far element   vs  Enqueue of an expired element
+//	15: producer on a full queue    vs  Dequeue of an expired element
+func (g *gen) simultaneous(kind int) {
+	r := g.r
+	at := func() int { return 1000 + r.Range(0, 120) } // both sides sleep ~1 ms, then race
+	var ls []string
+	switch kind {
+	case 13, 14:
+		ls = append(ls, "new cap=0")
+		if kind == 14 {
+			ls = append(ls, fmt.Sprintf("t1 0 enq %d %d 100000", g.id(), far(0)))
+		}
+		n := r.Range(1, 2)
+		for k := 0; k < n; k++ {
+			ls = append(ls, fmt.Sprintf("t%d %d deq %d", 2+k, at(), longCtx))
+		}
+		for k := 0; k < n; k++ {
+			ls = append(ls, fmt.Sprintf("t%d %d enq %d %d 100000", 5+k, at(), g.id(), slot(-3+k)))
+		}
+	default:
+		ls = append(ls, "new cap=1", fmt.Sprintf("t1 0 enq %d %d 100000", g.id(), slot(-5)),
+			fmt.Sprintf("t2 %d enq %d %d %d", at(), g.id(), slot(-4), longCtx),
+			fmt.Sprintf("t3 %d deq 100000", at()),
+			"t3 3000 deq 100000")
+	}
+	g.emit(append(ls, "end")...)
 }
 
 // cancelRace: a parked call is cancelled BACK-TO-BACK with the operation that would have woken it (the
@@ -304,9 +360,9 @@ func (g *gen) random(focus string) {
 
 func generate(tier, focus string, out *vlib.Out) {
 	g := &gen{r: vlib.NewRng(vlib.Seed()), out: out}
-	nd, nr := 108, 420
+	nd, nr := 144, 420
 	if focus == "wake" {
-		nd, nr = 180, 240
+		nd, nr = 240, 240
 	}
 	if tier == "thorough" {
 		nd, nr = nd*6, nr*8
@@ -623,7 +679,7 @@ func runCase(lines []string) []string {
 			continue
 		}
 		if !c.done {
-			out = append(out, fmt.Sprintf("%s => hang", c.line))
+			out = append(out, fmt.Sprintf("%s => hang jit=%d", c.line, jmax.Load()))
 			continue
 		}
 		switch {
@@ -641,7 +697,7 @@ func runCase(lines []string) []string {
 	mu.Unlock()
 	if hung {
 		aborted.Store(true)
-		return append(out, "end => hang")
+		return append(out, fmt.Sprintf("end => hang jit=%d", jmax.Load()))
 	}
 	// quiescent: final length and (bounded queues) the capacity-conservation probe
 	endc := make(chan string, 1)
@@ -709,7 +765,7 @@ func runCase(lines []string) []string {
 		out = append(out, "end => "+s)
 	case <-time.After(watchdog):
 		aborted.Store(true)
-		out = append(out, "end => hang")
+		out = append(out, fmt.Sprintf("end => hang jit=%d", jmax.Load()))
 	}
 	return out
 }
@@ -781,6 +837,9 @@ func verdicts(drv string, trace []string) []string {
 
 const timingMark = "timing-sensitive"
 
+// further executions of a scenario whose complaint is timing-sensitive; ANY rejected one confirms it
+const confirmAttempts = 8
+
 // classify: 0 = accepted, 1 = rejected for a timing-sensitive reason only, 2 = rejected with hard evidence
 func classify(v []string) int {
 	c := 0
@@ -799,11 +858,14 @@ func classify(v []string) int {
 	return c
 }
 
-// confirm: an observation that rests on a timing assumption (a wake-up bound, the watchdog, the order of
-// two deadlines the comparator saw at two instants, the model's exact-minimum replay) is reported only
-// if one of up to three further executions of the same scenario is rejected as well; if all three are
-// accepted the scenario is inconclusive and the trace of an accepted execution is kept.  Observations that need no timing
-// assumption (early release, duplicates, losses, capacity, effects of failed calls) are never retried.
+// confirm: an observation that may be an artefact of load — the order of two deadlines the comparator saw at
+// two instants, the model's exact-minimum replay, and, ONLY when the scheduling jitter measured during the
+// scenario exceeded 200 ms, a missed second-scale bound (wake-up, cancellation promptness, probe, watchdog) —
+// is reported only if one of up to confirmAttempts further executions of the same scenario is rejected as
+// well; if all are accepted the scenario is inconclusive and the trace of an accepted execution is kept.
+// Everything else is never retried: early release, duplicates, losses, capacity, effects of failed calls, and
+// a second-scale bound missed on a quiet machine (the acceptor words those without the timing mark).  A lost
+// wake-up is a race: it need not reproduce, so re-execution must not be allowed to discard it.
 // Confirmation stops at the first confirmed (or hard) rejection: the run is failing anyway.
 func confirm(cases [][]string, results [][]string, st *stats) (refutedHang bool) {
 	drv := driverPath()
@@ -830,14 +892,14 @@ func confirm(cases [][]string, results [][]string, st *stats) (refutedHang bool)
 		case 2:
 			return false
 		}
-		hung := strings.HasSuffix(tr[len(tr)-1], "=> hang")
+		hung := strings.Contains(tr[len(tr)-1], "=> hang")
 		// A complaint that needs a race to be hit (a wake-up lost after a cancellation overlapped a
 		// broadcast) re-rolls the race on every execution: it is confirmed as soon as ONE of up to three
-		// further executions is rejected again (for any reason), and refuted only if all three are accepted.
-		// Two independent spurious rejections within four executions do not happen.
+		// further executions is rejected again (for any reason), and refuted only if all of them are accepted.
+		// Two independent spurious rejections within a handful of executions do not happen.
 		confirmed := false
 		var accepted []string
-		for attempt := 0; attempt < 3; attempt++ {
+		for attempt := 0; attempt < confirmAttempts; attempt++ {
 			st.Recheck++
 			aborted.Store(false)
 			tr2 := runCase(cases[i])
